@@ -202,17 +202,20 @@ CLAIMED.update({
              "and all fuels, and is never stuck; (5) heap data (Model/Heap, heap_compile_correct): for every accepted program over struct values and "
              "pointers (incl. linked structures), uint64 cells, slices and subslices, in any related pair of heaps, the emitted term returns the related "
              "value and leaves related heaps under GooseLang's flattened representation - aliasing preserved, struct values copied, subslices share, "
-             "fresh allocation disjoint. Tied to the code by regenerated canonical text and tables (rfl), by "
+             "fresh allocation disjoint; (6) collections (Model/Coll, coll_compile_correct): for every growth policy of append and every iteration order "
+             "of map ranges, every accepted program over maps (insert, delete, two-result lookup, len, range) and slices (append, copy, capacities, "
+             "subslices, range) returns the related value and heap; maps are references, absent keys read zero, append aliases exactly when the "
+             "capacity suffices, commutatively accumulating range bodies are order-independent. Tied to the code by regenerated canonical text and tables (rfl), by "
              "structural correspondences (the models' outputs equal the trees the real goose emits on random control-flow skeletons, scoping programs, "
-             "Core programs and heap programs, rejections and messages included; values agree with native Go and with the interpreter) and by an end-to-end differential: generated packages run natively and through the real goose plus the Lean "
+             "Core, heap and collection programs, rejections and messages included; values agree with native Go and with the interpreter) and by an end-to-end differential: generated packages run natively and through the real goose plus the Lean "
              "reference interpreter (calibrated on every run against the repository's own semantics suite).",
         ref="DESIGN.md §6 C01",
         note="Proved: control flow, arithmetic, scoping, their composition with loops (Model/Core) and the heap fragment without append, maps, loops "
-             "(Model/Heap), each over a model of the corresponding translator functions whose output is compared with the real goose's on every run. "
-             "Sampled, not proved: maps, append, closures, strings, encoders, methods, multiple results, and the composition of Core with Heap - covered by the differential only (partial). Trusted: GL/Sem.lean as the meaning of the emitted "
+             "(Model/Heap) and collections (Model/Coll), each over a model of the corresponding translator functions whose output is compared with the real goose's on every run. "
+             "Sampled, not proved: closures, strings, encoders, methods, multiple results, and the composition of the Core, Heap and Coll models - covered by the differential only (partial). Trusted: GL/Sem.lean as the meaning of the emitted "
              "text (reconstruction of Perennial's GooseLang, K3-calibrated), GL/Lex+Parse, the Go toolchain as the meaning of Go. Known findings "
              "(known_findings.jsonl): loop-variable scope, named-integer conversions, narrow ++/--, untyped constant operands, evaluation order, "
-             "per-iteration loop variables, empty make is nil.",
+             "per-iteration loop variables, empty make is nil, reads of a nil map.",
         tech="Lean 4 proofs (simulation by mutual induction; BitVec arithmetic) + regenerated facts + structural correspondence + end-to-end differential"),
     "C02": dict(
         text="Machine-checked proof (Lean 4 kernel) of reject-or-faithful for the control-flow translation: for EVERY statement list and usage the "
